@@ -50,6 +50,7 @@ FORMS = {
     "long": ("import pkg.a.deep.deeper.leafmod", {"pkg": "pkg.a.deep.deeper.leafmod.z"}),
     "import_pkg": ("import pkg", {"pkg": "pkg.P0"}),
     "rel_from_multi": ("from .b import y1, y2", {"y1": "y1", "y2": "y2"}),
+    "rel_star": ("from .b import *", {"y2": "y2"}),
 }
 USAGES = ["plain", "plain", "plain", "function_only", "function_only", "all_only", "all_only", "reexport_only", "unused", "unused", "shadowed", "shadowed"]
 
@@ -85,7 +86,7 @@ def render(case):
     files = {
         "lib.py": "def f1():\n    return 1\ndef f2():\n    return 2\ndef f3():\n    return 3\ndef f4():\n    return 4\nclass C1:\n    def __init__(self):\n        self.v = 5\n__all__ = ['f1', 'f2', 'f3', 'f4', 'C1']\n",
         "pkg/__init__.py": "P0 = 41\n",
-        "b.py": "y1 = 91\ny2 = 92\n",  # a top-level namesake of pkg/b.py: a relative import must stay relative
+        "b.py": "y1 = 91\nq2 = 92\n",  # a top-level namesake of pkg/b.py: a relative import must stay relative
         "pkg/a/__init__.py": "x1 = 11\nx2 = 12\n",
         "pkg/a/deep/__init__.py": "",
         "pkg/a/deep/deeper/__init__.py": "",
@@ -159,7 +160,7 @@ def hazards(case):
         if u == "reexport_only":
             hz.add("reexport_without_all_removed_as_unused")
         if u == "all_only":
-            if "star" in forms:
+            if forms & {"star", "rel_star"}:
                 hz.add("all_export_of_star_imported_name_lost")
             if a == "froms_to_imports" and any(f.startswith("from_") or f.startswith("rel_") for f in forms):
                 hz.add("all_export_of_from_imported_name_lost_by_froms_to_imports")
@@ -168,11 +169,16 @@ def hazards(case):
         hz.add("aliased_from_import_subsumed_by_star_import")
     if a == "froms_to_imports" and st_ & {"rel_from_dot", "from_pkg_mod"}:
         hz.add("froms_to_imports_of_a_module_imports_only_the_package")
-    if a in ("organize_imports", "handle_long_imports") and "star" in st_ and st_ & {"from_lib", "from_lib_multi"}:
+    if a in ("organize_imports", "handle_long_imports") and (("star" in st_ and st_ & {"from_lib", "from_lib_multi"}) or ("rel_star" in st_ and st_ & {"rel_from_mod", "rel_from_multi"})):
         hz.add("star_import_dropped_on_reapplication_next_to_explicit_from_import")
-    if a == "froms_to_imports" and "import_dotted_as" in st_ and st_ & {"rel_from_mod", "rel_from_multi"}:
+    if a == "froms_to_imports" and "import_dotted_as" in st_ and st_ & {"rel_from_mod", "rel_from_multi", "rel_star"}:
         hz.add("froms_to_imports_reapplied_drops_aliased_import_of_same_module")
-    if a == "froms_to_imports" and st_ & {"rel_from_mod", "rel_from_multi", "from_pkg_a"} and st_ & {"long", "import_dotted"} and case["usage"].get("pkg") == "all_only":
+    pkg_forms = [k for k in case["stmts"] if "pkg" in FORMS[k][1]]
+    winner = pkg_forms[-1] if pkg_forms else None  # the form whose expression the module's code uses for `pkg`
+    idle_dotted = [k for k in set(pkg_forms) if k in ("long", "import_dotted") and (k != winner or case["usage"].get("pkg") not in ("plain", "function_only"))]
+    if a == "froms_to_imports" and st_ & {"rel_from_mod", "rel_from_multi", "rel_star", "from_pkg_a"} and idle_dotted:
+        # a dotted `import pkg.x...` whose own path the code does not use survives the first application (the name pkg is
+        # "used") and is removed by the second one, once `import pkg.b` provides pkg
         hz.add("froms_to_imports_reapplied_drops_package_import_named_only_in_all")
     if a == "organize_imports" and case["prefs"]["sort_imports_alphabetically"] and ({"import_lib", "import_lib_as"} <= st_ or {"import_dotted_as", "from_pkg_mod"} <= st_):
         hz.add("organize_imports_sort_unstable_for_same_module")
